@@ -43,11 +43,20 @@ pub enum L {
     CloseOldest(u64),
     CloseNewest(u64),
     Poll,
+    /// an arrival with key k whose hand-over by the listener - inside the listener's own poll -
+    /// first closes the oldest live channel with that key (a session take-over; equally a close on
+    /// another thread between the limiter's housekeeping and its poll of the listener)
+    Takeover(u64),
 }
+
+type Alive = Rc<RefCell<Vec<(u64, u64, Box<dyn std::any::Any>)>>>; // (arrival, key, channel)
 
 struct ListenerState {
     pending: VecDeque<Base>,
-    taken: Vec<(u64, u64)>, // (arrival, key)
+    taken: Vec<(u64, u64, u32)>, // (arrival, key, live channels with that key at hand-over)
+    takeover: Vec<u64>,          // arrivals that close their predecessor when handed over
+    alive: Alive,
+    closed_inside_poll: Vec<u64>,
     waker: Option<Waker>,
     closed: bool,
 }
@@ -61,7 +70,18 @@ impl Stream for Listener {
                 let st = c.get_ref().st.borrow();
                 (st.tag2, st.tag)
             };
-            s.taken.push((a, k));
+            if s.takeover.contains(&a) {
+                let victim = {
+                    let mut al = s.alive.borrow_mut();
+                    al.iter().position(|(_, kk, _)| *kk == k).map(|p| al.remove(p))
+                };
+                if let Some((va, _, ch)) = victim {
+                    drop(ch);
+                    s.closed_inside_poll.push(va);
+                }
+            }
+            let live = s.alive.borrow().iter().filter(|(_, kk, _)| *kk == k).count() as u32;
+            s.taken.push((a, k, live));
             return Poll::Ready(Some(c));
         }
         if s.closed {
@@ -75,27 +95,34 @@ impl Stream for Listener {
 pub fn c13_case(n: u32, ops: &[L], desc: serde_json::Value) -> Outcome {
     let mut out = Outcome::default();
     out.desc = desc;
+    let alive: Alive = Default::default();
     let ls = Rc::new(RefCell::new(ListenerState {
         pending: VecDeque::new(),
         taken: vec![],
+        takeover: vec![],
+        alive: alive.clone(),
+        closed_inside_poll: vec![],
         waker: None,
         closed: false,
     }));
     let limited = Listener(ls.clone()).max_channels_per_key(n, |c: &Base| c.get_ref().st.borrow().tag);
     let mut limited = Box::pin(limited);
     let fl = flag();
-    let mut alive: Vec<(u64, u64, Box<dyn std::any::Any>)> = vec![]; // (arrival, key, channel)
     let mut arrivals = 0u64;
     let mut sheds = 0u64;
     let mut admits = 0u64;
     let mut named_cell = false;
+    let mut takeover_cell = false;
     let mut closes_since_poll: Vec<u64> = vec![];
     let mut arrivals_since_poll: Vec<u64> = vec![];
     let mut h = FNV0;
     for op in ops {
         match *op {
-            L::Arrive(k) => {
+            L::Arrive(k) | L::Takeover(k) => {
                 arrivals += 1;
+                if matches!(op, L::Takeover(_)) {
+                    ls.borrow_mut().takeover.push(arrivals);
+                }
                 let (m, st) = new_mock::<Response<String>, ClientMessage<String>>("listener", Model::Independent, 1, None);
                 {
                     let mut s = st.borrow_mut();
@@ -113,13 +140,16 @@ pub fn c13_case(n: u32, ops: &[L], desc: serde_json::Value) -> Outcome {
                 fnv(&mut h, "a");
             }
             L::CloseOldest(k) | L::CloseNewest(k) => {
-                let pos = if matches!(op, L::CloseOldest(_)) {
-                    alive.iter().position(|(_, kk, _)| *kk == k)
-                } else {
-                    alive.iter().rposition(|(_, kk, _)| *kk == k)
+                let victim = {
+                    let mut al = alive.borrow_mut();
+                    let pos = if matches!(op, L::CloseOldest(_)) {
+                        al.iter().position(|(_, kk, _)| *kk == k)
+                    } else {
+                        al.iter().rposition(|(_, kk, _)| *kk == k)
+                    };
+                    pos.map(|p| al.remove(p))
                 };
-                if let Some(p) = pos {
-                    let (a, _, ch) = alive.remove(p);
+                if let Some((a, _, ch)) = victim {
                     drop(ch);
                     closes_since_poll.push(k);
                     out.trace.push(format!("close#{a}(key {k})"));
@@ -144,13 +174,18 @@ pub fn c13_case(n: u32, ops: &[L], desc: serde_json::Value) -> Outcome {
                             return out;
                         }
                     };
-                    let taken: Vec<(u64, u64)> = ls.borrow_mut().taken.drain(..).collect();
+                    let taken: Vec<(u64, u64, u32)> = ls.borrow_mut().taken.drain(..).collect();
+                    for va in ls.borrow_mut().closed_inside_poll.drain(..) {
+                        takeover_cell = true;
+                        out.trace.push(format!("  (inside the listener's poll) close#{va}"));
+                        fnv(&mut h, "t");
+                    }
                     let yielded = match &r {
                         Poll::Ready(Some(ch)) => Some(ch.get_ref().get_ref().st.borrow().tag2),
                         _ => None,
                     };
-                    for (a, k) in taken.iter() {
-                        let live = alive.iter().filter(|(_, kk, _)| kk == k).count() as u32;
+                    for (a, k, live) in taken.iter() {
+                        let live = *live;
                         if Some(*a) == yielded {
                             admits += 1;
                             if live >= n {
@@ -173,10 +208,10 @@ pub fn c13_case(n: u32, ops: &[L], desc: serde_json::Value) -> Outcome {
                                 let st = ch.get_ref().get_ref().st.borrow();
                                 (st.tag2, st.tag)
                             };
-                            if !taken.iter().any(|(x, _)| *x == a) {
+                            if !taken.iter().any(|(x, _, _)| *x == a) {
                                 out.viol("C13", "yield-from-nowhere", format!("channel #{a} yielded but was not handed over by the listener in this poll"));
                             }
-                            alive.push((a, k, Box::new(ch)));
+                            alive.borrow_mut().push((a, k, Box::new(ch)));
                         }
                         Poll::Ready(None) => break,
                         Poll::Pending => break,
@@ -187,6 +222,9 @@ pub fn c13_case(n: u32, ops: &[L], desc: serde_json::Value) -> Outcome {
     }
     if named_cell {
         out.cell("C13.close-and-same-key-arrival-pending-at-one-poll");
+    }
+    if takeover_cell {
+        out.cell("C13.close-inside-the-listeners-poll");
     }
     if sheds > 0 {
         out.cell("C13.shed");
@@ -226,17 +264,47 @@ pub enum Node {
 
 #[derive(Clone, Debug, PartialEq)]
 pub enum HEv {
-    B { id: u32, ctx: u128 },
-    A { id: u32, ctx: Option<u128>, res: Result<String, String> },
-    H { ctx: u128 },
+    B { id: u32, ctx: Cx },
+    A { id: u32, ctx: Option<Cx>, res: Result<String, (std::io::ErrorKind, String)> },
+    H { ctx: Cx },
 }
 
-fn tid(ctx: &context::Context) -> u128 {
-    u128::from(ctx.trace_context.trace_id)
+/// everything a hook can see or change in a context: (trace id, span id, sampled, deadline in
+/// seconds after a fixed base instant)
+pub type Cx = (u128, u64, bool, u64);
+
+fn base_instant() -> std::time::Instant {
+    static BASE: std::sync::OnceLock<std::time::Instant> = std::sync::OnceLock::new();
+    *BASE.get_or_init(std::time::Instant::now)
 }
-fn set_tid(ctx: &mut context::Context, v: u128) {
-    ctx.trace_context.trace_id = trace::TraceId::from(v);
+fn cx(ctx: &context::Context) -> Cx {
+    (
+        u128::from(ctx.trace_context.trace_id),
+        u64::from(ctx.trace_context.span_id),
+        ctx.trace_context.sampling_decision == trace::SamplingDecision::Sampled,
+        ctx.deadline.saturating_duration_since(base_instant()).as_secs(),
+    )
 }
+fn set_cx(ctx: &mut context::Context, c: Cx) {
+    ctx.trace_context.trace_id = trace::TraceId::from(c.0);
+    ctx.trace_context.span_id = trace::SpanId::from(c.1);
+    ctx.trace_context.sampling_decision = if c.2 { trace::SamplingDecision::Sampled } else { trace::SamplingDecision::Unsampled };
+    ctx.deadline = base_instant() + std::time::Duration::from_secs(c.3);
+}
+/// what before-hook `id` does to the context: exactly one field, chosen by the id
+fn mutate(c: Cx, id: u32) -> Cx {
+    match id % 4 {
+        0 => (1000 + id as u128, c.1, c.2, c.3),
+        1 => (c.0, 1000 + id as u64, c.2, c.3),
+        2 => (c.0, c.1, !c.2, c.3),
+        _ => (c.0, c.1, c.2, 100_000 + id as u64),
+    }
+}
+/// hooks with such ids are written as closures (the blanket impls), the others as structs
+fn closure_form(id: u32) -> bool {
+    (id / 4) % 2 == 1
+}
+const START: Cx = (7, 70, false, 50_000);
 
 type Log = Rc<RefCell<Vec<HEv>>>;
 
@@ -260,8 +328,9 @@ struct BHook {
 }
 impl BeforeRequest<String> for BHook {
     async fn before(&mut self, ctx: &mut context::Context, _req: &String) -> Result<(), ServerError> {
-        self.log.borrow_mut().push(HEv::B { id: self.id, ctx: tid(ctx) });
-        set_tid(ctx, 1000 + self.id as u128);
+        self.log.borrow_mut().push(HEv::B { id: self.id, ctx: cx(ctx) });
+        let c = mutate(cx(ctx), self.id);
+        set_cx(ctx, c);
         if self.fail {
             Err(ServerError::new(std::io::ErrorKind::PermissionDenied, format!("before{}", self.id)))
         } else {
@@ -280,9 +349,9 @@ impl AfterRequest<String> for AHook {
     async fn after(&mut self, ctx: &mut context::Context, resp: &mut Result<String, ServerError>) {
         let seen = match resp {
             Ok(s) => Ok(s.clone()),
-            Err(e) => Err(e.detail.clone()),
+            Err(e) => Err((e.kind, e.detail.clone())),
         };
-        self.log.borrow_mut().push(HEv::A { id: self.id, ctx: if self.report_ctx { Some(tid(ctx)) } else { None }, res: seen });
+        self.log.borrow_mut().push(HEv::A { id: self.id, ctx: if self.report_ctx { Some(cx(ctx)) } else { None }, res: seen });
         match self.rw {
             Rw::Keep => {}
             Rw::Ok => *resp = Ok(format!("rw{}", self.id)),
@@ -306,6 +375,31 @@ impl AfterRequest<String> for BAHook {
     }
 }
 
+/// the same hooks as closures (exercising tarpc's blanket impls for `FnMut`)
+fn bclosure(id: u32, fail: bool, log: Log) -> impl FnMut(&mut context::Context, &String) -> std::future::Ready<Result<(), ServerError>> + Clone {
+    move |ctx, _req| {
+        log.borrow_mut().push(HEv::B { id, ctx: cx(ctx) });
+        let c = mutate(cx(ctx), id);
+        set_cx(ctx, c);
+        std::future::ready(if fail { Err(ServerError::new(std::io::ErrorKind::PermissionDenied, format!("before{id}"))) } else { Ok(()) })
+    }
+}
+fn aclosure(id: u32, rw: Rw, log: Log) -> impl FnMut(&mut context::Context, &mut Result<String, ServerError>) -> std::future::Ready<()> + Clone {
+    move |_ctx, resp| {
+        let seen = match resp {
+            Ok(s) => Ok(s.clone()),
+            Err(e) => Err((e.kind, e.detail.clone())),
+        };
+        log.borrow_mut().push(HEv::A { id, ctx: None, res: seen });
+        match rw {
+            Rw::Keep => {}
+            Rw::Ok => *resp = Ok(format!("rw{id}")),
+            Rw::Err => *resp = Err(ServerError::new(std::io::ErrorKind::Other, format!("rwerr{id}"))),
+        }
+        std::future::ready(())
+    }
+}
+
 fn erase<S: Serve<Req = String, Resp = String> + Clone + 'static>(s: S) -> DynServe {
     DynServe(Rc::new(move |ctx, req| {
         let s = s.clone();
@@ -321,7 +415,7 @@ fn build(node: &Node, log: &Log) -> DynServe {
             DynServe(Rc::new(move |ctx, _req| {
                 let log = log.clone();
                 Box::pin(async move {
-                    log.borrow_mut().push(HEv::H { ctx: tid(&ctx) });
+                    log.borrow_mut().push(HEv::H { ctx: cx(&ctx) });
                     if ok {
                         Ok("leaf".to_string())
                     } else {
@@ -330,7 +424,9 @@ fn build(node: &Node, log: &Log) -> DynServe {
                 })
             }))
         }
+        Node::Before { id, fail, inner } if closure_form(*id) => erase(build(inner, log).before(bclosure(*id, *fail, log.clone()))),
         Node::Before { id, fail, inner } => erase(build(inner, log).before(BHook { id: *id, fail: *fail, log: log.clone() })),
+        Node::After { id, rw, inner } if closure_form(*id) => erase(build(inner, log).after(aclosure(*id, rw.clone(), log.clone()))),
         Node::After { id, rw, inner } => erase(build(inner, log).after(AHook { id: *id, rw: rw.clone(), log: log.clone(), report_ctx: false })),
         Node::Both { id, fail, rw, inner } => erase(build(inner, log).before_and_after(BAHook {
             b: BHook { id: *id, fail: *fail, log: log.clone() },
@@ -339,6 +435,17 @@ fn build(node: &Node, log: &Log) -> DynServe {
         Node::Chain { hooks, inner } => {
             let i = build(inner, log);
             let hk = |n: usize| BHook { id: hooks[n].0, fail: hooks[n].1, log: log.clone() };
+            if !hooks.is_empty() && closure_form(hooks[0].0) {
+                // first hook of the chain in closure form
+                let c0 = bclosure(hooks[0].0, hooks[0].1, log.clone());
+                return match hooks.len() {
+                    1 => erase(before().then(c0).serving(i)),
+                    2 => erase(before().then(c0).then(hk(1)).serving(i)),
+                    3 => erase(before().then(c0).then(hk(1)).then(hk(2)).serving(i)),
+                    4 => erase(before().then(c0).then(hk(1)).then(hk(2)).then(hk(3)).serving(i)),
+                    _ => erase(before().then(c0).then(hk(1)).then(hk(2)).then(hk(3)).then(hk(4)).serving(i)),
+                };
+            }
             match hooks.len() {
                 0 => erase(before().serving(i)),
                 1 => erase(before().then(hk(0)).serving(i)),
@@ -352,21 +459,22 @@ fn build(node: &Node, log: &Log) -> DynServe {
 }
 
 /// reference interpreter of the property's sentences
-fn reference(node: &Node, ctx: u128, log: &mut Vec<HEv>) -> Result<String, String> {
+fn reference(node: &Node, ctx: Cx, log: &mut Vec<HEv>) -> Result<String, (std::io::ErrorKind, String)> {
+    use std::io::ErrorKind as K;
     match node {
         Node::Leaf { ok } => {
             log.push(HEv::H { ctx });
             if *ok {
                 Ok("leaf".into())
             } else {
-                Err("leaferr".into())
+                Err((K::NotFound, "leaferr".into()))
             }
         }
         Node::Before { id, fail, inner } => {
             log.push(HEv::B { id: *id, ctx });
-            let c2 = 1000 + *id as u128;
+            let c2 = mutate(ctx, *id);
             if *fail {
-                return Err(format!("before{id}"));
+                return Err((K::PermissionDenied, format!("before{id}")));
             }
             reference(inner, c2, log)
         }
@@ -376,30 +484,30 @@ fn reference(node: &Node, ctx: u128, log: &mut Vec<HEv>) -> Result<String, Strin
             match rw {
                 Rw::Keep => r,
                 Rw::Ok => Ok(format!("rw{id}")),
-                Rw::Err => Err(format!("rwerr{id}")),
+                Rw::Err => Err((K::Other, format!("rwerr{id}"))),
             }
         }
         Node::Both { id, fail, rw, inner } => {
             log.push(HEv::B { id: *id, ctx });
-            let c2 = 1000 + *id as u128;
+            let c2 = mutate(ctx, *id);
             if *fail {
-                return Err(format!("before{id}"));
+                return Err((K::PermissionDenied, format!("before{id}")));
             }
             let r = reference(inner, c2, log);
             log.push(HEv::A { id: *id, ctx: Some(c2), res: r.clone() });
             match rw {
                 Rw::Keep => r,
                 Rw::Ok => Ok(format!("rw{id}")),
-                Rw::Err => Err(format!("rwerr{id}")),
+                Rw::Err => Err((K::Other, format!("rwerr{id}"))),
             }
         }
         Node::Chain { hooks, inner } => {
             let mut c = ctx;
             for (id, fail) in hooks.iter().take(5) {
                 log.push(HEv::B { id: *id, ctx: c });
-                c = 1000 + *id as u128;
+                c = mutate(c, *id);
                 if *fail {
-                    return Err(format!("before{id}"));
+                    return Err((K::PermissionDenied, format!("before{id}")));
                 }
             }
             reference(inner, c, log)
@@ -529,11 +637,11 @@ pub fn c19_case(tree: &Node, desc: serde_json::Value) -> Outcome {
     let log: Log = Rc::new(RefCell::new(vec![]));
     let s = build(tree, &log);
     let mut ctx = context::current();
-    set_tid(&mut ctx, 7);
+    set_cx(&mut ctx, START);
     let fut = s.serve(ctx, "req".to_string());
     let got = catch_unwind(AssertUnwindSafe(|| fut.now_or_never()));
     let got = match got {
-        Ok(Some(r)) => r.map_err(|e| e.detail),
+        Ok(Some(r)) => r.map_err(|e| (e.kind, e.detail)),
         Ok(None) => {
             out.viol("C19", "pending", "the composed serve future did not complete although every hook is immediately ready".into());
             return out;
@@ -544,7 +652,7 @@ pub fn c19_case(tree: &Node, desc: serde_json::Value) -> Outcome {
         }
     };
     let mut want_log = vec![];
-    let want = reference(tree, 7, &mut want_log);
+    let want = reference(tree, START, &mut want_log);
     let got_log = log.borrow().clone();
     let mut shape = String::new();
     shape_of(tree, &mut shape);
@@ -583,6 +691,91 @@ pub fn c19_case(tree: &Node, desc: serde_json::Value) -> Outcome {
         out.cell("C19.chain-length-0");
     }
     out.count("hook_events", got_log.len() as u64);
+    out
+}
+
+/// C19 across a serializing transport: a hook's error (or what an after-hook leaves in the result)
+/// is what the real client receives. `place`: 0 = failing `before`, 1 = `after` rewriting the
+/// result, 2 = failing before part of `before_and_after`, 3 = failing second hook of a chain.
+pub fn c19_wire_case(kind: std::io::ErrorKind, json: bool, place: u8) -> Outcome {
+    use futures::StreamExt;
+    use tokio_util::codec::{Framed, LengthDelimitedCodec};
+    #[derive(Clone)]
+    struct FailB(std::io::ErrorKind);
+    impl BeforeRequest<String> for FailB {
+        async fn before(&mut self, _ctx: &mut context::Context, _req: &String) -> Result<(), ServerError> {
+            Err(ServerError::new(self.0, "hook says no".to_string()))
+        }
+    }
+    #[derive(Clone)]
+    struct OkB;
+    impl BeforeRequest<String> for OkB {
+        async fn before(&mut self, _ctx: &mut context::Context, _req: &String) -> Result<(), ServerError> {
+            Ok(())
+        }
+    }
+    #[derive(Clone)]
+    struct RwA(std::io::ErrorKind);
+    impl AfterRequest<String> for RwA {
+        async fn after(&mut self, _ctx: &mut context::Context, resp: &mut Result<String, ServerError>) {
+            *resp = Err(ServerError::new(self.0, "hook says no".to_string()));
+        }
+    }
+    #[derive(Clone)]
+    struct BothB(std::io::ErrorKind);
+    impl BeforeRequest<String> for BothB {
+        async fn before(&mut self, _ctx: &mut context::Context, _req: &String) -> Result<(), ServerError> {
+            Err(ServerError::new(self.0, "hook says no".to_string()))
+        }
+    }
+    impl AfterRequest<String> for BothB {
+        async fn after(&mut self, _ctx: &mut context::Context, _resp: &mut Result<String, ServerError>) {}
+    }
+    let mut out = Outcome::default();
+    out.desc = json!({"family": "S-hooks", "kind": "over-the-wire", "error_kind": format!("{kind:?}"), "codec": if json { "json" } else { "bincode" }, "placement": place});
+    let leaf = DynServe(Rc::new(|_ctx, _req| Box::pin(async { Ok("leaf".to_string()) })));
+    let serve = match place {
+        0 => erase(leaf.before(FailB(kind))),
+        1 => erase(leaf.after(RwA(kind))),
+        2 => erase(leaf.before_and_after(BothB(kind))),
+        _ => erase(before().then(OkB).then(FailB(kind)).serving(leaf)),
+    };
+    let rt = tokio::runtime::Builder::new_current_thread().enable_all().build().unwrap();
+    let local = tokio::task::LocalSet::new();
+    let res = local.block_on(&rt, async move {
+        let (a, b) = tokio::io::duplex(256);
+        macro_rules! go {
+            ($codec_c:expr, $codec_s:expr) => {{
+                let ct = tarpc::serde_transport::new(Framed::new(a, LengthDelimitedCodec::new()), $codec_c);
+                let st = tarpc::serde_transport::new(Framed::new(b, LengthDelimitedCodec::new()), $codec_s);
+                let server = BaseChannel::with_defaults(st);
+                tokio::task::spawn_local(tarpc::server::Channel::execute(server, serve).for_each(|f| async move {
+                    tokio::task::spawn_local(f);
+                }));
+                let client = tarpc::client::new::<String, String, _>(tarpc::client::Config::default(), ct).spawn();
+                tokio::time::timeout(std::time::Duration::from_secs(20), client.call(context::current(), "req".to_string())).await
+            }};
+        }
+        if json {
+            go!(tokio_serde::formats::Json::<Response<String>, ClientMessage<String>>::default(), tokio_serde::formats::Json::<ClientMessage<String>, Response<String>>::default())
+        } else {
+            go!(tokio_serde::formats::Bincode::<Response<String>, ClientMessage<String>>::default(), tokio_serde::formats::Bincode::<ClientMessage<String>, Response<String>>::default())
+        }
+    });
+    let want = crate::codec::expected_kind(kind, true);
+    match res {
+        Err(_) => out.inconclusive = Some("over-the-wire hook case: no answer within 20 s of real time".into()),
+        Ok(Err(RpcError::Server(e))) => {
+            if e.kind != want || e.detail != "hook says no" {
+                out.viol("C19", "wire-hook-error", format!("a hook (placement {place}) produced ServerError({kind:?}, \"hook says no\"); the client received ServerError({:?}, {:?}) (expected kind {want:?})", e.kind, e.detail));
+            }
+        }
+        Ok(other) => out.viol("C19", "wire-hook-error", format!("a hook (placement {place}) produced ServerError({kind:?}); the client's call returned {other:?}")),
+    }
+    out.cell(format!("C19.over-the-wire.placement{place}"));
+    out.nontrivial("C19");
+    out.sig = 0xC19_0000 + ((place as u64) << 12) + ((json as u64) << 11) + crate::codec::all_kinds().iter().position(|k| *k == kind).unwrap_or(0) as u64;
+    out.trace = vec![format!("hook error {kind:?} via placement {place} over {}", if json { "JSON" } else { "bincode" })];
     out
 }
 
